@@ -120,7 +120,7 @@ def degenerate_records():
 
 
 STRUCT_PLACES = ["bucket", "content", "tmp", "index-v5", "content-v2", "root", "bucket-parent", "content-algo-dir"]
-STRUCT_KINDS = ["dir", "file", "dangling-symlink", "symlink-loop", "unreadable-dir", "symlink-to-dir"]
+STRUCT_KINDS = ["dir", "file", "dangling-symlink", "symlink-loop", "unreadable-dir", "symlink-to-dir", "symlink-to-ancestor", "extra-symlink-to-ancestor"]
 
 
 def place_path(cache, place):
@@ -153,6 +153,16 @@ def make_struct(cache, aux, place, kind, base_snap):
     elif kind == "unreadable-dir":
         os.makedirs(p)
         os.chmod(p, 0)
+    elif kind == "symlink-to-ancestor":
+        # the place itself becomes a symlink to the directory two levels up (a directory cycle)
+        os.symlink(os.path.dirname(os.path.dirname(p)) or "/", p)
+    elif kind == "extra-symlink-to-ancestor":
+        # the place stays as it was; next to it sits an extra symlink pointing back at an ancestor directory
+        fsutil.restore(cache, base_snap)
+        os.makedirs(os.path.dirname(p), exist_ok=True)
+        extra = os.path.join(os.path.dirname(p), "cycle")
+        if not os.path.lexists(extra):
+            os.symlink(os.path.dirname(os.path.dirname(p)) or "/", extra)
     elif kind == "symlink-to-dir":
         os.makedirs(os.path.join(aux, "elsewhere"), exist_ok=True)
         os.symlink(os.path.join(aux, "elsewhere"), p)
@@ -178,6 +188,8 @@ def state_worker(ctx, job):
     if job["kind"] == "struct":
         for place in job["places"]:
             for kind in STRUCT_KINDS:
+                if kind.endswith("symlink-to-ancestor") and place in ("root", "tmp", "index-v5", "content-v2"):
+                    continue   # the ancestor would lie outside the cache under test (clear would then wipe the scratch area)
                 states.append(("struct:%s=%s" % (place, kind), ("struct", place, kind)))
     else:
         for name, line in degenerate_records().items():
